@@ -1,7 +1,7 @@
 """C16 - IMP conversion is the official scale, odd and monotone, for every integer difference.
 
 The argument for *every* integer: the difference flows only into abs(), unary minus and comparisons
-against integer constants / entries of the scale table (checked by a use analysis of the parameter),
+against integer constants / entries of the scale table - enforced by folding on an interval-abstract integer (fold.IntervalInt),
 so the function is constant on each interval between consecutive comparison constants.  Folding one
 representative per interval and per boundary (k-1, k, k+1 for every constant k, both signs, 0 and a
 huge magnitude) therefore decides all integers."""
@@ -47,7 +47,7 @@ def run(chk):
     # ---- R0: counterexample search, independent of the shape of the code -------------------------------------------------
     # (dense fold: every integer difference up to beyond the last threshold, both signs, and huge magnitudes; every pair of a
     # score grid through score_to_imp).  A difference whose IMP value is wrong is a definite violation whatever the code looks
-    # like; the proof for ALL integers is the use analysis below.
+    # like; the proof for ALL integers is the interval abstraction below.
     base_ = range(-4300, 4301) if chk.tier != 'quick' else [d + e for d in range(-4300, 4301, 10) for e in (-1, 0, 1)]     # (scores are multiples of 10)
     dense = sorted(set(base_) | {s * k for s in (1, -1) for k in (5000, 7600, 7610, 8000, 10000, 10 ** 6, 10 ** 9, 10 ** 12 + 7, 2 ** 70)})
     bad0 = None
